@@ -30,6 +30,7 @@ type Program struct {
 	Sizes types.Sizes
 	// package-level vars (must be empty for no-globals)
 	Globals []string
+	tableCands []*ast.Ident // package-level maps: globals unless they are read-only constant tables
 	// source text of the contract file
 	ContractText string
 	ContractFile string
@@ -95,11 +96,24 @@ func loadProgram() (*Program, error) {
 				if d.Tok == token.VAR {
 					for _, s := range d.Specs {
 						for _, n := range s.(*ast.ValueSpec).Names {
+							// a read-only constant lookup table (consttable.go) is not shared mutable state
+							if v, ok := p.Info.Defs[n].(*types.Var); ok {
+								if _, isMap := v.Type().Underlying().(*types.Map); isMap {
+									p.tableCands = append(p.tableCands, n)
+									continue
+								}
+							}
 							p.Globals = append(p.Globals, n.Name)
 						}
 					}
 				}
 			}
+		}
+	}
+	for _, n := range p.tableCands {
+		v := p.Info.Defs[n].(*types.Var)
+		if t := p.constTableOfVar(v); t == nil || t.why != "" {
+			p.Globals = append(p.Globals, n.Name)
 		}
 	}
 	return p, nil
